@@ -105,6 +105,45 @@ pub fn identity(ctx : &Ctx, out : &mut Out)
         }
     }
 
+    // long strings (around and beyond the 64-byte block of SHA-256) next to each other, and one character moved across
+    // the boundary between two neighbours: same concatenation, different rules
+    let lens = [1usize, 2, 55, 56, 63, 64, 65, 100, 127, 128, 129, 200, 300];
+    let n_long = if ctx.thorough { 3000 } else { 300 };
+    for _ in 0..n_long
+    {
+        let mk = |rng : &mut Rng, n : usize| -> String { (0..n).map(|_| *rng.pick(&['a', 'b', '/', '.', ' ', 'x'])).collect::<String>().trim().to_string() + "q" };
+        let (l1, l2, l3) = (*rng.pick(&lens), *rng.pick(&lens), *rng.pick(&lens));
+        let (x, y, z) = (mk(&mut rng, l1), mk(&mut rng, l2), mk(&mut rng, l3));
+        let a = match rng.below(3)
+        {
+            0 => Rule::new(vec!["t".to_string()], vec!["s".to_string()], vec![x.clone(), y.clone(), z.clone()]),
+            1 => Rule::new(vec!["t".to_string()], vec![x.clone()], vec![y.clone(), z.clone()]),
+            _ => Rule::new(vec![x.clone()], vec![y.clone()], vec![z.clone()]),
+        };
+        // move the last character of one string to the front of the next one (across a line or a section boundary)
+        let mut parts : Vec<Vec<String>> = vec![a.targets.clone(), a.sources.clone(), a.command.clone()];
+        let flat : Vec<(usize, usize)> = parts.iter().enumerate().flat_map(|(i, v)| (0..v.len()).map(move |j| (i, j))).collect();
+        let k = rng.below(flat.len() - 1);
+        let (i1, j1) = flat[k]; let (i2, j2) = flat[k + 1];
+        if parts[i1][j1].len() >= 2
+        {
+            let ch = parts[i1][j1].pop().unwrap();
+            parts[i2][j2].insert(0, ch);
+        }
+        let b = Rule::new(parts[0].clone(), parts[1].clone(), parts[2].clone());
+        let ta = match catch(|| a.get_ticket()) { Ok(t) => t, Err(m) => { out.violation("C13:ticket-panic", m, Json::s(&show_rule(&a))); continue; } };
+        let tb = match catch(|| b.get_ticket()) { Ok(t) => t, Err(m) => { out.violation("C13:ticket-panic", m, Json::s(&show_rule(&b))); continue; } };
+        out.case(sexp::paren(&["rule_ticket".to_string(), show_rule(&a)]), sexp::hex(&ticket_bytes(&ta)), true);
+        out.case(sexp::paren(&["rule_ticket".to_string(), show_rule(&b)]), sexp::hex(&ticket_bytes(&tb)), true);
+        let same = same_rule(&a, &b);
+        out.count(&format!("long-neighbours:{}", if same { "same" } else { "different" }));
+        if !same && ta == tb
+        {
+            out.violation("C13:different-rules-share-identity", "long-neighbours: two different rules (one character moved between neighbouring long strings) get the same identity".to_string(),
+                Json::s(&format!("{} {}", show_rule(&a), show_rule(&b))));
+        }
+    }
+
     // outside the parser's range (empty strings, embedded newlines): the serialisation collides where
     // the model says it does; compared only through the model, no monitor
     let odd : Vec<Rule> = vec![
